@@ -470,3 +470,93 @@ def small_hints(h):
     """search hints that keep counterexample values small and exactly representable"""
     return [-8 <= iv(h), iv(h) <= 8, -8 <= rv(h), rv(h) <= 8, z3.IsInt(rv(h) * 2), 0 <= sk(h), sk(h) <= 8, ln(h) <= 3,
             du(h) == 0, do(h) <= O_LO + 400]
+
+
+# ---- validation of the comparison axioms against CPython (run by the contracts on every build) ----------------------------
+def _enc(h, v):
+    """constraints that make handle h carry the concrete Python value v"""
+    if v is None:
+        return [tag(h) == NONE_T]
+    if isinstance(v, bool):
+        return [tag(h) == BOOL_T, bv(h) == v]
+    if isinstance(v, int):
+        return [tag(h) == INT_T, iv(h) == v]
+    if isinstance(v, float):
+        if v != v:
+            return [tag(h) == FLOAT_T, fk(h) == NAN]
+        if v in (float('inf'), float('-inf')):
+            return [tag(h) == FLOAT_T, fk(h) == (PINF if v > 0 else NINF)]
+        num_, den_ = v.as_integer_ratio()
+        return [tag(h) == FLOAT_T, fk(h) == FIN, rv(h) == z3.Q(num_, den_)]
+    if isinstance(v, datetime.datetime):
+        return [tag(h) == DT_T, do(h) == v.toordinal(), du(h) == ((v.hour * 60 + v.minute) * 60 + v.second) * 10 ** 6 + v.microsecond]
+    raise ValueError(v)
+
+
+def validate_against_cpython():
+    """every pair of a small concrete universe: ==, whether < raises TypeError, and the value of < as CPython computes them
+    must be what scalar_eq / lt_defined / py_lt say; tuple < and == are checked against the statement of seq_lt_axiom /
+    the container == axiom evaluated natively; the type-name order is recomputed.  Returns a list of disagreements."""
+    D_ = datetime.datetime
+    strs = ['', 'a', 'ab', 'b']
+    scalars = [None, True, False, 0, 1, -3, 2 ** 53, 0.0, 1.0, 2.5, -1.5, float('nan'), float('inf'), float('-inf'), D_(2020, 1, 1), D_(2021, 6, 1, 12, 30)]
+    probs = []
+    a, b = Int('va!a'), Int('va!b')
+    s = z3.Solver()
+
+    def holds(cs, f):
+        s.push()
+        try:
+            s.add(*cs); s.add(Not(f))
+            return s.check() == z3.unsat
+        finally:
+            s.pop()
+    vals = [(v, None) for v in scalars] + [(w, i) for i, w in enumerate(strs)]
+    for x, xi in vals:
+        for y, yi in vals:
+            cs = ([tag(a) == STR_T, sk(a) == xi] if xi is not None else _enc(a, x)) + ([tag(b) == STR_T, sk(b) == yi] if yi is not None else _enc(b, y))
+            try:
+                lt, defined = (x < y), True
+            except TypeError:
+                lt, defined = None, False
+            f_eq = scalar_eq(a, b) == BoolVal(bool(x == y))
+            f_def = lt_defined(a, b) == BoolVal(defined)
+            f_lt = (py_lt(a, b) == BoolVal(bool(lt))) if defined else BoolVal(True)
+            if holds(cs, And(f_eq, f_def, f_lt)):
+                continue
+            if not holds(cs, f_eq):
+                probs.append('== on %r, %r' % (x, y))
+            if not holds(cs, f_def):
+                probs.append('definedness of < on %r, %r' % (x, y))
+            if not holds(cs, f_lt):
+                probs.append('< on %r, %r' % (x, y))
+    # tuple / list comparison: the axioms' statement evaluated natively
+    nan = float('nan')
+    elems = [None, 1, 1.0, 2, 'a', nan, (1,), (2,)]
+    tups = [()] + [(p,) for p in elems] + [(p, q) for p in elems for q in elems]
+    same = lambda p, q: p is q or p == q
+    for x in tups:
+        for y in tups:
+            n = min(len(x), len(y))
+            w = next((k for k in range(n) if not same(x[k], y[k])), n)
+            try:
+                lt, raised = (x < y), False
+            except TypeError:
+                lt, raised = None, True
+            try:
+                exp_raise, exp = False, ((x[w] < y[w]) if w < n else len(x) < len(y))
+            except TypeError:
+                exp_raise, exp = True, None
+            if raised != exp_raise or (not raised and bool(lt) != bool(exp)):
+                probs.append('tuple < on %r, %r' % (x, y))
+            if (x == y) != (len(x) == len(y) and all(same(p, q) for p, q in zip(x, y))):
+                probs.append('tuple == on %r, %r' % (x, y))
+    if [1] == (1,) or not ([nan] == [nan]) or [float('nan')] == [float('nan')]:
+        probs.append('list == (type / identity shortcut)')
+    if sorted(set(str(type(v)) for v in _EXAMPLE.values())) != _ORDER:
+        probs.append('type-name order')
+    return probs
+
+
+VALIDATION_NOTE = ('validated on this run:==, < (value and TypeError) on all pairs of a 20-value scalar universe, tuple < / == on 73 x 73 tuples '
+                   'and the type-name order agree with the CPython that generates the obligations')
